@@ -66,6 +66,9 @@ package mem
 
 //@ spec srcData(src keyvalue.FileRecord) := keyvalue.srcData(src)
 //@ spec srcDataErr(src keyvalue.FileRecord) := keyvalue.srcDataErr(src)
+// the stored blob is the source's data; for a record fresh from FS.newFile, the fresh empty blob its first load produced
+//@ spec storedData(b blob.Blob, src keyvalue.FileRecord) := implies(!old(keyvalue.srcNew(src)), b == old(srcData(src))) &&
+//@        implies(old(keyvalue.srcNew(src)), keyvalue.emptyBytes(b) && fresh(b.(*blob.Bytes)) && implies(isType(src, *keyvalue.fileData), b == srcData(src)))
 //@ spec srcCache(src keyvalue.FileRecord) := src.(*keyvalue.fileData).runOnceFileRecord
 //@ spec sameExcept(s *store, path string) := forall(k, string, implies(k != path, in(k, dom(s.records)) == old(in(k, dom(s.records))) && s.records[k] == old(s.records[k])))
 //@ spec sameAll(s *store) := forall(k, string, in(k, dom(s.records)) == old(in(k, dom(s.records))) && s.records[k] == old(s.records[k]))
@@ -82,7 +85,7 @@ package mem
 //@   ensures "data-error" implies(src != nil && old(srcDataErr(src)) != nil, err == old(srcDataErr(src)) && sameAll(s))
 //@   ensures "store" implies(src != nil && old(srcDataErr(src)) == nil, err == nil && in(path, dom(s.records)) && sameExcept(s, path) &&
 //@                     isType(s.records[path], fileRecord) && s.records[path].(fileRecord).store == s && s.records[path].(fileRecord).path == path &&
-//@                     s.records[path].(fileRecord).data == old(srcData(src)) &&
+//@                     storedData(s.records[path].(fileRecord).data, src) &&
 //@                     s.records[path].(fileRecord).mode == old(keyvalue.srcMode(src)) &&
 //@                     s.records[path].(fileRecord).modTime == old(keyvalue.srcMTime(src)))
 //@   nopanic
@@ -136,7 +139,7 @@ package mem
 //@   ensures "delete" implies(!old(cancelled(t.ctx)) && src == nil, !in(path, dom(t.store.records)) && sameExcept(t.store, path))
 //@   ensures "data-error" implies(!old(cancelled(t.ctx)) && src != nil && old(srcDataErr(src)) != nil, t.results[id].Err == old(srcDataErr(src)) && sameAll(t.store))
 //@   ensures "store" implies(!old(cancelled(t.ctx)) && src != nil && old(srcDataErr(src)) == nil, in(path, dom(t.store.records)) && sameExcept(t.store, path) &&
-//@                        isType(t.store.records[path], fileRecord) && t.store.records[path].(fileRecord).data == old(srcData(src)) &&
+//@                        isType(t.store.records[path], fileRecord) && storedData(t.store.records[path].(fileRecord).data, src) &&
 //@                        t.store.records[path].(fileRecord).store == t.store && t.store.records[path].(fileRecord).path == path &&
 //@                        t.store.records[path].(fileRecord).mode == old(keyvalue.srcMode(src)) &&
 //@                        t.store.records[path].(fileRecord).modTime == old(keyvalue.srcMTime(src)))
@@ -160,7 +163,7 @@ package mem
 //@   ensures "delete" implies(!cancelled(t.ctx) && src == nil, t.results[id].Err == nil && !in(path, dom(t.store.records)) && sameExcept(t.store, path))
 //@   ensures "data-error" implies(!cancelled(t.ctx) && src != nil && old(srcDataErr(src)) != nil, t.results[id].Err == old(srcDataErr(src)) && sameAll(t.store))
 //@   ensures "store" implies(!cancelled(t.ctx) && src != nil && old(srcDataErr(src)) == nil, t.results[id].Err == nil && in(path, dom(t.store.records)) && sameExcept(t.store, path) &&
-//@                        isType(t.store.records[path], fileRecord) && t.store.records[path].(fileRecord).data == old(srcData(src)) &&
+//@                        isType(t.store.records[path], fileRecord) && storedData(t.store.records[path].(fileRecord).data, src) &&
 //@                        t.store.records[path].(fileRecord).store == t.store && t.store.records[path].(fileRecord).path == path &&
 //@                        t.store.records[path].(fileRecord).mode == old(keyvalue.srcMode(src)) &&
 //@                        t.store.records[path].(fileRecord).modTime == old(keyvalue.srcMTime(src)))
